@@ -135,6 +135,11 @@ def mutate(rng, text, level):
     if rng.random() < 0.08 * level:
         text2 = rng.choice([";; 1. Based on: 5\n;; 2. Description: x\n", "; leading comment\n\n", "\n\n", "This is free text before the first record\n"]) + text2
         muts.append("text_before_first_record")
+    if rng.random() < 0.05 * level and not text2.lstrip().upper().startswith("$SIZ"):
+        # a $SIZES record stands before the first $PROBLEM; options pharmpy knows (LTH, PC) next to ones it does not
+        text2 = rng.choice(["$SIZES LTH=120 PD=-70\n", "$SIZES PC=40 LVR=30 ; sizes\n", "$SIZES LTH=50 LVR=40 PC=35\n",
+                            "$SIZES PD=-70\n"]) + text2
+        muts.append("sizes_record")
     if rng.random() < 0.06 * level:
         # an unknown / rarely used record in the middle
         p2, r2 = split(text2)
